@@ -11,6 +11,7 @@ package model
 //@   requires error != nil
 //@   ensures len(m.SyntaxErrors) == old(len(m.SyntaxErrors)) + 1
 //@   ensures m.SyntaxErrors[old(len(m.SyntaxErrors))] == error
+//@   ensures forall(i, 0, old(len(m.SyntaxErrors)), m.SyntaxErrors[i] == old(m.SyntaxErrors[i]))
 
 //@ pred fieldsNonNil(p *Packet) := forall(j, 0, len(p.Fields), p.Fields[j] != nil)
 
@@ -82,3 +83,28 @@ package model
 //@ inv *Field: typeis(self.Attr, *MatchFieldAttribute) ==> forall(k, 0, len(unbox(self.Attr, *MatchFieldAttribute).MatchPairs), haskey(themodel().PacketsMap, unbox(self.Attr, *MatchFieldAttribute).MatchPairs[k].Value) && 0 <= rank(themodel().PacketsMap[unbox(self.Attr, *MatchFieldAttribute).MatchPairs[k].Value]) && rank(themodel().PacketsMap[unbox(self.Attr, *MatchFieldAttribute).MatchPairs[k].Value]) < rank(self))
 // wf.key: every match table of a packet is keyed by a declared field of that packet
 //@ inv *Packet: forallkey(k, self.MatchFields, haskey(self.FieldMap, k))
+
+// ---------------------------------------------------------------- C12: diagnostics of the model operations
+
+//@ func contains
+//@   ensures result == exists(i, 0, len(slice), slice[i] == target)
+//@   loop 0 invariant forall(i, 0, rangeindex + 1, slice[i] != target)
+
+//@ pred optKnown(name string) := haskey(options, name)
+//@ pred optAllowed(name string, value string) := len(options[name]) == 0 || exists(i, 0, len(options[name]), options[name][i] == value)
+//@ pred oneMoreError(m *BinaryModel, n int, line int) := len(m.SyntaxErrors) == n + 1 && m.SyntaxErrors[n].Line == line
+
+//@ func (*BinaryModel).AddOption
+//@   ensures [C12:D1-unknown] !optKnown(name) ==> oneMoreError(m, old(len(m.SyntaxErrors)), line) && haskey(m.Options, name) == old(haskey(m.Options, name))
+//@   ensures [C12:D1-illegal] optKnown(name) && !optAllowed(name, value) ==> len(m.SyntaxErrors) >= old(len(m.SyntaxErrors)) + 1 && m.SyntaxErrors[old(len(m.SyntaxErrors))].Line == line
+//@   ensures [C12:D1-duplicate] optKnown(name) && optAllowed(name, value) && old(haskey(m.Options, name)) ==> oneMoreError(m, old(len(m.SyntaxErrors)), line) && m.Options[name] == old(m.Options[name])
+//@   ensures [C12:D1-accept] optKnown(name) && optAllowed(name, value) && !old(haskey(m.Options, name)) ==> len(m.SyntaxErrors) == old(len(m.SyntaxErrors)) && haskey(m.Options, name) && m.Options[name] == value
+
+//@ func (*BinaryModel).AddPacket
+//@   ensures [C12:D2-duplicate] old(haskey(m.PacketsMap, packet.Name)) ==> oneMoreError(m, old(len(m.SyntaxErrors)), packet.Line) && len(m.Packets) == old(len(m.Packets)) && m.RootPacket == old(m.RootPacket) && m.PacketsMap[packet.Name] == old(m.PacketsMap[packet.Name])
+//@   ensures [C12:D2-second-root] !old(haskey(m.PacketsMap, packet.Name)) && packet.IsRoot && old(m.RootPacket) != nil ==> oneMoreError(m, old(len(m.SyntaxErrors)), packet.Line) && m.RootPacket == old(m.RootPacket)
+//@   ensures [C12:D2-accept] !old(haskey(m.PacketsMap, packet.Name)) && !(packet.IsRoot && old(m.RootPacket) != nil) ==> len(m.SyntaxErrors) == old(len(m.SyntaxErrors)) && m.PacketsMap[packet.Name] == packet && len(m.Packets) == old(len(m.Packets)) + 1 && m.Packets[old(len(m.Packets))] == packet && (packet.IsRoot ==> m.RootPacket == packet) && (!packet.IsRoot ==> m.RootPacket == old(m.RootPacket))
+
+//@ func (*BinaryModel).AddMetaData
+//@   ensures [C12:D3-duplicate] old(haskey(m.MetaDataMap, metaData.Name)) ==> oneMoreError(m, old(len(m.SyntaxErrors)), metaData.Line) && m.MetaDataMap[metaData.Name].Attr == old(m.MetaDataMap[metaData.Name].Attr)
+//@   ensures [C12:D3-accept] !old(haskey(m.MetaDataMap, metaData.Name)) ==> len(m.SyntaxErrors) == old(len(m.SyntaxErrors)) && haskey(m.MetaDataMap, metaData.Name) && m.MetaDataMap[metaData.Name].Attr == metaData.Attr
